@@ -19,6 +19,27 @@ CHECKS = {
         note=("trusted: CPython re, TLC; the design model abstracts rules to their width intervals; the link to all texts "
               "rests on the character-class alphabet plus random Unicode traces"),
         technique='TLA+ scan-loop model checked by TLC + TLC trace validation of instrumented lexer runs'),
+    'C05': dict(
+        category='model_checking',
+        text=("TLC explores the implementation-shaped Splitter.tla in lock-step with the ScriptGen.tla generator whose frame stack is "
+              "the reference monitor (scripts of any length, script hidden by VIEW): every significant token must land in the statement "
+              "numbered by the final semicolons before it.  TLC-emitted scripts are spelled (two spellings each, opaque-region bodies "
+              "replaced by hostile bodies) and run through parse()/split(); TLC validates every recorded run (TraceSplit.tla) while "
+              "stepping the Splitter model next to it."),
+        design_ref='DESIGN.md §5 C05',
+        note=("token-level half decided here; character-level opacity of the region rules is C14's model; plain scripts = ScriptGen "
+              "with constructs caseexpr, parensemi, createplain, txbegin"),
+        technique='TLA+ lock-step refinement check (TLC) + TLC-generated scripts replayed + TLC trace validation'),
+    'C17': dict(
+        category='model_checking',
+        text=("Same lock-step composition with the procedural constructs of ScriptGen.tla (CREATE header, DECLARE, nested BEGIN, IF, "
+              "FOR/WHILE/LOOP, WHILE..DO, CASE statements and expressions): all reachable disagreements are collected as witnesses, "
+              "spelled and confirmed on the code; the construct set without recorded findings must be clean in the model. Emitted "
+              "scripts and the repo's procedure fixtures (embedded between plain statements) are validated by TLC."),
+        design_ref='DESIGN.md §5 C17',
+        note=("two recorded findings (END LOOP, END CASE) are matched by clause + trigger construct + 'model predicts the observed "
+              "pieces'; anything else alarms"),
+        technique='TLA+ lock-step refinement check (TLC) + TLC-generated scripts replayed + TLC trace validation'),
 }
 
 PENDING = {}
